@@ -158,6 +158,8 @@ def run(ctx, col: Collector):
                     sym = idx.resolve(fi.module, c.func.id)
                     if sym is not None and sym.kind == 'func' and sym.name == 'get_full_name_for_sql':
                         return True
+                    if sym is not None and sym.kind == 'import' and sym.target_name == 'get_full_name_for_sql':      # imported under another name
+                        return True
             return False
         tb = [(n.body, n.orelse) for n in ast.walk(fi.node) if isinstance(n, ast.If) and is_enum_test(n.test)] + \
              [([ast.Expr(value=n.body)], [ast.Expr(value=n.orelse)]) for n in ast.walk(fi.node) if isinstance(n, ast.IfExp) and is_enum_test(n.test)]
